@@ -339,6 +339,11 @@ class Prop(PropBase):
              "pol": "LIN", "obsfreq": 344.1875},
             {"fmt": "stokes", "seed": sd + 7, "rate_mhz": 1, "t0_s": 0, "a": 4, "b": 8, "nsamp": 16, "lsb": True, "freq": 7000, "bw": 200},
             {"fmt": "stokes", "seed": sd + 8, "rate_mhz": 2, "t0_s": 0, "a": 4, "b": 4, "nsamp": 33, "lsb": False, "freq": 1400, "bw": 8},
+            # long files (hundreds of thousands of samples, several frames/files): reads of 2^15, 2^16, 2^17 samples and neighbours
+            {"fmt": "dada", "seed": sd + 9, "rate_mhz": 16, "t0_s": 0, "complex": True, "a": 1, "b": 2, "spf": 32768, "nsamp": 32768 * 7,
+             "lsb": False, "long": True},
+            {"fmt": "dada", "seed": sd + 10, "rate_mhz": 2, "t0_s": 12345, "complex": False, "a": 1, "b": 2, "spf": 65536, "nsamp": 65536 * 5,
+             "lsb": True, "long": True},
         ]
         specs += [{"fmt": "repo", "name": "sample.vdif", "lsb": rng.choice([False, True])},
                   {"fmt": "repo", "name": "sample.dada", "squeeze": rng.random() < 0.5},
@@ -359,6 +364,17 @@ class Prop(PropBase):
             big = info["a"] * info["b"] > 64
             spf = spec.get("spf") or 1
             spf_out = max(1, spf // 2 if mode == "real" else spf)
+            if spec.get("long"):
+                ops = []
+                for n in (65536, 32768, 131072, 65537, 65535):
+                    if n <= L:
+                        o = rng.choice([0, 5, L - n, rng.randint(0, L - n)])
+                        ops.append(["read", {"k": "int", "v": o}, {"k": "int", "v": n}, rng.choice([False, False, True])])
+                if mode != "real":
+                    ops.append(["adjacent", 3, 65536, 65536])
+                ops.append(["repeat", 7, 65536 if L >= 65543 else 32768])
+                yield {"op": "reader", "spec": spec, "ops": ops}
+                continue
             for _ in range(3 if quick else 12):
                 ops = []
                 for _ in range(rng.randint(4, 9)):
